@@ -39,7 +39,8 @@ LAYOUTS = (("face", "Y", "X"), ("t", "face", "Y", "X"), ("face", "t", "Y", "X"),
 PERIODICITIES = ((False, False), (True, True), (True, False), (False, True))
 
 
-def make_grid(K, N, table, rule, fv):
+def make_grid(K, N, table, rule, fv, percall=False):
+    """percall: the Grid keeps its default (periodic) rule; the rule under test is given with the call"""
     from xgcm import Grid
 
     lay = {"X": S.POS, "Y": S.POS}
@@ -47,6 +48,8 @@ def make_grid(K, N, table, rule, fv):
     ds = ds.assign_coords(face=np.arange(K))
     with warnings.catch_warnings():
         warnings.simplefilter("ignore")
+        if percall:
+            return Grid(ds, coords=S.grid_coords(lay), face_connections={"face": table} if table is not None else None, autoparse_metadata=False)
         return Grid(ds, coords=S.grid_coords(lay), face_connections={"face": table} if table is not None else None,
                     periodic=False, boundary=rule, fill_value=fv, autoparse_metadata=False)
 
@@ -112,7 +115,8 @@ def run_case(rec, Kx, Ky, N, per, orient, axis, op, target, ri, li, seed, pre=No
     if ri % 2:
         table = {f: dict(reversed(list(table[f].items()))) for f in reversed(list(table))}
     try:
-        g = make_grid(D.nf, N, table if any(table[f] for f in table) else None, gb, gf)
+        percall = (ri + li) % 2 == 1 or li == 3
+        g = make_grid(D.nf, N, table if any(table[f] for f in table) else None, gb, gf, percall=percall)
     except Exception as e:
         rec.violation("constructor", "raise:" + exc_sig(e), case, "a Grid", f"{type(e).__name__}: {e}"[:200])
         return
@@ -122,7 +126,7 @@ def run_case(rec, Kx, Ky, N, per, orient, axis, op, target, ri, li, seed, pre=No
     dn = {"X": "xc", "Y": "yc", "face": "face", "t": "t"}
     da = da.transpose(*[dn[d] for d in layout])
     try:
-        r = getattr(g, op)(da, axis, to=target)
+        r = getattr(g, op)(da, axis, to=target, boundary=dict(gb), fill_value=dict(gf)) if percall else getattr(g, op)(da, axis, to=target)
     except Exception as e:
         rec.violation("op", "raise:" + exc_sig(e), case, "array", f"{type(e).__name__}: {e}"[:200])
         return
